@@ -469,6 +469,7 @@ def C05(ck):
                "{ok, err}; the coverage-guided-fuzzing clause of the quantifier is not claimed; non-trivial = anything but a plain error")
     ck.assumptions = TRUST + ["a worker killed by the input is recorded by the orchestrator and reported as outcome oom / timeout / crash"]
     ck.add_model(vlib.mc("MC_Codec", "MC_Codec.cfg"))
+    ck.add_model(vlib.tlaps("PsaCodecReaderProofs", expect_min=60))    # the reader machine for inputs of any length
     _reader(ck)
     _bytes_fuzz(ck)
 
@@ -481,6 +482,7 @@ def C06(ck):
                "non-trivial = anything but a plain error")
     ck.assumptions = TRUST + ["runtime.MemStats.TotalAlloc as the instrument for allocated bytes; RLIMIT_AS on the worker"]
     ck.add_model(vlib.mc("MC_Codec", "MC_Codec.cfg"))
+    ck.add_model(vlib.tlaps("PsaCodecReaderProofs", expect_min=60))    # the reader machine for inputs of any length
     _reader(ck)
     _bytes_fuzz(ck)
 
